@@ -170,7 +170,10 @@ def judge_backend(case, which, stats=None):
     line = text.splitlines()[ln - 1].strip()[:200] if ln and 0 < ln <= len(text.splitlines()) else ""
     return (f"{which}:syntax_error", f"{ex} :: {line}")
   sp = d.structural_problems()
-  if sp: return (f"{which}:structural:{_kind(sp[0])}", "; ".join(sp[:3])[:400])
+  if sp:
+    if _kind(sp[0]) == "for_loop_does_not_terminate" and has_wrapping_descending_loop(design):
+      return (f"{which}:descending_loop_wraps_unsigned", "; ".join(sp[:2])[:300])
+    return (f"{which}:structural:{_kind(sp[0])}", "; ".join(sp[:3])[:400])
   dp = d.driver_problems(topmod)
   if dp: return (f"{which}:drivers:{_kind(dp[0])}", "; ".join(dp[:3])[:400])
   flat = which == "yosys"
@@ -196,12 +199,29 @@ def judge_backend(case, which, stats=None):
 
 def _kind(msg):
   """problem class without module / signal names"""
+  if "does not terminate" in msg: return "for_loop_does_not_terminate"
   for k in ("multiple drivers", "no driver", "member access", "instance name", "not declared", "undeclared",
             "declared twice", "duplicate", "reserved", "defined twice", "not defined", "input port"):
     if k in msg: return k.replace(" ", "_")
   import re
   m = re.sub(r"[^a-zA-Z ]", "", msg.split(":", 1)[-1]).split()
   return "_".join(m[:4]).lower()[:40]
+
+
+def has_wrapping_descending_loop(design):
+  """a constant descending loop whose value after the last iteration would be negative"""
+  found = []
+
+  def walk(x):
+    if isinstance(x, list):
+      if x and x[0] == "for" and len(x) == 6 and isinstance(x[4], int) and x[4] < 0:
+        vals = list(range(x[2], x[3], x[4]))
+        if vals and vals[-1] + x[4] < 0: found.append(x[:5])
+      for y in x: walk(y)
+    elif isinstance(x, dict):
+      for y in x.values(): walk(y)
+  walk(design)
+  return bool(found)
 
 
 def width_sensitive(design):
